@@ -22,7 +22,7 @@ Definition keyword_op (op : bytes) : bool :=
 Definition operator_ok (op : bytes) : bool :=
   match op with [] => false | _ => true end && forallb is_operator_char op && negb (keyword_op op).
 
-(* an operand: a direct object other than a reference, nested at most MAX_BRACKET container levels *)
+(* an operand: a direct object other than a reference, nested at most MAX_NESTING container levels *)
 Definition operand_wf (o : obj) : Prop := obj_wf o /\ ref_ok false o /\ (nest o <= MAX_DEPTH)%nat.
 
 Definition plain_op_wf (op : operation) : Prop :=
@@ -541,7 +541,7 @@ Definition plain_dom (op : operation) : Prop :=
 Definition op_dom (op : operation) : Prop :=
   alphabet_op (op_operator op) = true /\ (plain_dom op \/ image_dom op).
 
-(* known finding C14-deep-nesting: an operand nests containers deeper than MAX_BRACKET *)
+(* known finding C14-deep-nesting: an operand nests containers deeper than MAX_NESTING (reader.rs; 16 since /repo ce95661, before: MAX_BRACKET) *)
 Definition too_deep_op (op : operation) : bool :=
   existsb (fun o => Nat.ltb MAX_DEPTH (nest o)) (op_operands op).
 
@@ -630,7 +630,7 @@ Proof. vm_compute. reflexivity. Qed.
 Definition kw_witness : operation := mkop "nullify" [].
 Definition bi_witness : operation := mkop "BIx" [].
 Fixpoint nested (k : nat) : obj := match k with O => OInt 1 | S k' => OArr [nested k'] end.
-Definition deep_witness : operation := mkop "x" [nested 101].
+Definition deep_witness : operation := mkop "x" [nested (S MAX_DEPTH)].
 
 Lemma nested_wf k : obj_wf (nested k).
 Proof.
@@ -668,7 +668,7 @@ Qed.
 
 (* exactly at the limit the round trip still holds *)
 Lemma deep_limit_ok :
-  decode_content (encode_content [mkop "x" [nested 100]]) = DecOk [mkop "x" [nested 100]].
+  decode_content (encode_content [mkop "x" [nested MAX_DEPTH]]) = DecOk [mkop "x" [nested MAX_DEPTH]].
 Proof. vm_compute. reflexivity. Qed.
 
 (* outside the domain (documented restrictions): a reference as an operand, a non-finite real *)
